@@ -92,6 +92,8 @@ def applicable_ops(ref, universe, payloads=(b"one", b""), with_meta_update=True,
                 ops.append(("store", k, b, {"custom": "c%d" % i, "title": "t-" + k}))
         if with_meta_update and k in ref.data:
             ops.append(("store_metadata", k, dict(ref.meta.get(k, {}), custom="upd")))
+            # overwrite with new bytes, handing back the metadata just read from the store (read-modify-write of an entry)
+            ops.append(("restore", k, b"rewritten:" + k.encode()))
         if k in ref.data or (k in ref.meta and not is_dir):
             ops.append(("remove", k))
         if not ref.present(k) and not anc_has_data and k not in ref.data:
@@ -114,6 +116,9 @@ def apply_op(store, op):
             m["custom"] = "changed-by-the-caller-after-store"
             if isinstance(m.get("fileinfo"), dict):
                 m["fileinfo"]["size"] = -1
+    elif name == "restore":
+        m = store.get_metadata(op[1]) if not isinstance(store, RefStore) else dict(store.meta.get(op[1], {}))
+        store.store(op[1], op[2], dict(m))
     elif name == "store_metadata":
         # "metadata update of an existing key": read, change the caller's fields, write back
         m = store.get_metadata(op[1]) if not isinstance(store, RefStore) else dict(store.meta.get(op[1], {}))
